@@ -276,7 +276,9 @@ func genSQL(r *vh.Rand, depth int) (string, int) {
 		} else {
 			sb.WriteString(" where ")
 		}
-		sb.WriteString([]string{"time>now()-1h", "time>'20190410 00:00:00' and time<'20190410 10:00:00'", "time>=now()-30m and time<now()"}[r.Intn(3)])
+		sb.WriteString([]string{"time>now()-1h", "time>'20190410 00:00:00' and time<'20190410 10:00:00'", "time>=now()-30m and time<now()",
+			// a point in time, and a range that lies inside one storage slot (planned as start = end)
+			"time>='20230601 10:00:00' and time<='20230601 10:00:00'", "time>='20230601 10:00:03' and time<='20230601 10:00:08'"}[r.Intn(5)])
 		clauses++
 	}
 	if r.Chance(55) {
@@ -432,6 +434,12 @@ func main() {
 		q.Interval = timeutil.Interval([]int64{0, 10000, 60000, 90000, 3600000, 129600000, 86400000 * 45, 86400000 * 60}[r.Intn(8)])
 		q.StorageInterval = timeutil.Interval([]int64{0, 10000, 300000, 3600000}[r.Intn(4)])
 		q.IntervalRatio = r.Intn(7)
+		if q.StorageInterval > 0 && r.Chance(60) {
+			// the root truncates both ends of the range to the storage interval before it serialises the statement
+			iv := q.StorageInterval.Int64()
+			q.TimeRange.Start = q.TimeRange.Start / iv * iv
+			q.TimeRange.End = q.TimeRange.End / iv * iv
+		}
 		if r.Chance(30) && q.Having == nil {
 			q.Having = genExpr(r, 2)
 		}
